@@ -53,7 +53,7 @@ def run(ctx):
         ctx.violation({"check": "vector", "weight_dtype": bad and bad["weight_dtype"]}, f"WeightedTensor operation differs from Masking.tla on {bad}", replay=bad)
     # twin scenarios
     rnd = random.Random(ctx.seed)
-    kinds = ["logistic_diag_src1", "logistic_scalar_src1", "joint_src1"] if q else \
+    kinds = ["logistic_diag_src1", "logistic_scalar_src1", "joint_src1", "logistic_binary"] if q else \
         ["logistic_diag_src1", "logistic_scalar_src1", "joint_src1", "linear_diag_src1", "linear_scalar_src1", "shared_speed_src1",
          "logistic_binary", "logistic_univariate", "joint_nosrc"]
     fills = [(7.5, -3.0), (1e30, 1e30), (float("nan"), float("nan")), (float("inf"), float("inf")), (-2.0, 55.5)]
@@ -64,7 +64,7 @@ def run(ctx):
         for seed in seeds:
             combos = [(f, p) for f in fills for p in (0, 1, 2)]
             rnd.shuffle(combos)
-            for (fill, tfill), pad in combos[: (4 if q else 12)]:
+            for (fill, tfill), pad in combos[: ((2 if kind == "logistic_binary" else 4) if q else 12)]:
                 scen.append(mk.run_scenario(kind, seed, fill, tfill, pad, cache))
                 ctx.case(key=(kind, seed, repr(fill), pad))
     ok, idx, r3 = cases.validate_records("MaskingTrace", CFG_T, scen, tmp, "scenarios")
